@@ -53,17 +53,12 @@ def bytesOf : GoVal → Bytes
   | .bytes b => b
   | _ => []
 
-/-- Go `len` of a slice / map / []byte value (nil → 0) -/
-def lenOf : GoVal → Nat
-  | .list xs => xs.length
-  | .map kvs => kvs.length
-  | .bytes b => b.length
-  | _ => 0
-
+/-- elements of a slice value (nil → none); `len(x)` of a slice is `(elemsOf x).length` -/
 def elemsOf : GoVal → List GoVal
   | .list xs => xs
   | _ => []
 
+/-- entries of a map value (nil → none); `len(m)` is `(entriesOf m).length` -/
 def entriesOf : GoVal → List (GoVal × GoVal)
   | .map kvs => kvs
   | _ => []
@@ -78,6 +73,15 @@ def baseEq (ty : Ty) (a b : GoVal) : Bool :=
   match ty with
   | .str | .bin => bytesOf a == bytesOf b
   | _ => goEq a b
+
+/-- FieldDeepEqualBase on a POINTER slot (`*int32`, `*string`, …): `tgt == src → true` (disjoint object graphs: only
+when both are nil), `tgt == nil || src == nil → false`, else the pointees are compared -/
+def ptrBaseEq (ty : Ty) (a b : GoVal) : Bool :=
+  match a, b with
+  | .nil, .nil => true
+  | .nil, _ => false
+  | _, .nil => false
+  | a, b => baseEq ty a b
 
 /-- the Go zero value of a container element of type `ty` (what `m[k]` yields for a missing key) -/
 def zeroElem (ty : Ty) : GoVal := zeroOf .default ty
@@ -103,15 +107,15 @@ def deepEqual (F : Facts) (P : Prog) (ty : Ty) (a b : GoVal) : Res Bool :=
           | some sd => deepEqFields F P sd.fields fs gs
           | none => .err
       | _ => .err
-  | .list _, .nil => .ok (!F.lenTest || lenOf b == 0)
+  | .list _, .nil => .ok (!F.lenTest || (elemsOf b).length == 0)
   | .list e, .list xs =>
-      if F.lenTest && xs.length != lenOf b then .ok false else deepEqElems F P e xs 0 (elemsOf b)
-  | .set _, .nil => .ok (!F.lenTest || lenOf b == 0)
+      if F.lenTest && xs.length != (elemsOf b).length then .ok false else deepEqElems F P e xs 0 (elemsOf b)
+  | .set _, .nil => .ok (!F.lenTest || (elemsOf b).length == 0)
   | .set e, .list xs =>
-      if F.lenTest && xs.length != lenOf b then .ok false else deepEqElems F P e xs 0 (elemsOf b)
-  | .map _ _, .nil => .ok (!F.lenTest || lenOf b == 0)
+      if F.lenTest && xs.length != (elemsOf b).length then .ok false else deepEqElems F P e xs 0 (elemsOf b)
+  | .map _ _, .nil => .ok (!F.lenTest || (entriesOf b).length == 0)
   | .map k v, .map kvs =>
-      if F.lenTest && kvs.length != lenOf b then .ok false else deepEqEntries F P k v kvs (entriesOf b)
+      if F.lenTest && kvs.length != (entriesOf b).length then .ok false else deepEqEntries F P k v kvs (entriesOf b)
   | ty, a => .ok (baseEq ty a b)
 termination_by structural a
 /-- `for i, v := range tgt { _src := src[i]; … }` from index `i` on -/
@@ -145,13 +149,7 @@ def deepEqFields (F : Facts) (P : Prog) (defs : List FieldDef) (as bs : List GoV
   match defs, as, bs with
   | [], [], [] => .ok true
   | f :: fs, a :: as, b :: bs => do
-      let c ← (if isPtrField f then
-                 (match a, b with
-                  | .nil, .nil => .ok true
-                  | .nil, _ => .ok false
-                  | _, .nil => .ok false
-                  | a, b => .ok (baseEq f.ty a b))
-               else deepEqual F P f.ty a b)
+      let c ← (if isPtrField f then .ok (ptrBaseEq f.ty a b) else deepEqual F P f.ty a b)
       if c then deepEqFields F P fs as bs else .ok false
   | _, _, _ => .err
 termination_by structural as
@@ -159,13 +157,7 @@ end
 
 /-- `p.Field<N>DeepEqual(src)` for field `f` (what `deepEqFields` runs per field) -/
 def fieldEq (F : Facts) (P : Prog) (f : FieldDef) (a b : GoVal) : Res Bool :=
-  if isPtrField f then
-    (match a, b with
-     | .nil, .nil => .ok true
-     | .nil, _ => .ok false
-     | _, .nil => .ok false
-     | a, b => .ok (baseEq f.ty a b))
-  else deepEqual F P f.ty a b
+  if isPtrField f then .ok (ptrBaseEq f.ty a b) else deepEqual F P f.ty a b
 
 /-- `x.DeepEqual(y)` on objects of struct `sidx`; `same` = the two arguments are the SAME pointer -/
 def deepEqualTop (F : Facts) (P : Prog) (sidx : Nat) (same : Bool) (a b : GoVal) : Res Bool :=
@@ -338,13 +330,13 @@ def valEq (P : Prog) (ty : Ty) (a b : GoVal) : Bool :=
           | some sd => valEqFields P sd.fields fs gs
           | none => false
       | _ => false
-  | .list _, .nil => lenOf b == 0
+  | .list _, .nil => (elemsOf b).length == 0
   | .list e, .list xs => valEqList P e xs (elemsOf b)
-  | .set _, .nil => lenOf b == 0
+  | .set _, .nil => (elemsOf b).length == 0
   | .set e, .list xs => valEqList P e xs (elemsOf b)
-  | .map _ _, .nil => lenOf b == 0
+  | .map _ _, .nil => (entriesOf b).length == 0
   | .map k v, .map kvs =>
-      kvs.length == lenOf b &&
+      kvs.length == (entriesOf b).length &&
       (if k.isStruct then
          -- struct keys are compared by content
          valEqSub P k v kvs (entriesOf b) && (entriesOf b).all (fun e' => valEqAny P k v kvs e')
